@@ -230,7 +230,7 @@ class VFS:
         self._logcall("access", path, ok)
         return ok
 
-    def _open_node(self, path, flags, mode=0o644):
+    def _open_node(self, path, flags, mode=0o644, py=False):
         """POSIX open(2) semantics; returns the file inode."""
         creat = bool(flags & os.O_CREAT)
         excl = bool(flags & os.O_EXCL)
@@ -260,9 +260,9 @@ class VFS:
         if creat and excl:
             raise _err(errno.EEXIST, p)
         if node.kind == "dir":
-            if wr or creat:
+            if wr or creat or py:
                 raise _err(errno.EISDIR, p)
-            raise _err(errno.EISDIR, p)
+            return node                      # os.open(dir, O_RDONLY) is legal (directory descriptor)
         if trailing:
             raise _err(errno.ENOTDIR, p)
         if not self.uid_root:
@@ -293,7 +293,7 @@ class VFS:
         self._logcall("open", path, "ok flags=%o" % flags)
         fd = self._next_fd
         self._next_fd += 1
-        self.fds[fd] = {"node": node, "pos": len(node.data) if flags & os.O_APPEND else 0, "flags": flags,
+        self.fds[fd] = {"node": node, "pos": len(node.data) if (flags & os.O_APPEND and node.kind == "file") else 0, "flags": flags,
                         "path": str(path)}
         return fd
 
@@ -337,8 +337,10 @@ class VFS:
         sd, sname, snode, _ = self._walk(src, follow=False)
         if snode is None:
             raise _err(errno.ENOENT, os.fspath(src))
-        dd, dname, dnode, _ = self._walk(dst, follow=False)
+        dd, dname, dnode, dtrail = self._walk(dst, follow=False)
         if dd is None or dd.kind != "dir":
+            raise _err(errno.ENOTDIR, os.fspath(dst))
+        if dtrail and snode.kind != "dir":
             raise _err(errno.ENOTDIR, os.fspath(dst))
         if not self.uid_root and ((dd.mode & 0o300) != 0o300 or (sd.mode & 0o300) != 0o300):
             raise _err(errno.EACCES, os.fspath(dst))
@@ -356,9 +358,11 @@ class VFS:
         sd, sname, snode, _ = self._walk(src, follow=False)
         if snode is None:
             raise _err(errno.ENOENT, os.fspath(src))
-        dd, dname, dnode, _ = self._walk(dst, follow=False)
+        dd, dname, dnode, dtrail = self._walk(dst, follow=False)
         if dnode is not None:
             raise _err(errno.EEXIST, os.fspath(dst))
+        if dtrail:
+            raise _err(errno.ENOENT, os.fspath(dst))
         if not self.uid_root and (dd.mode & 0o300) != 0o300:
             raise _err(errno.EACCES, os.fspath(dst))
         dd.entries[dname] = snode
@@ -423,7 +427,7 @@ class VFS:
                 h = self.fds[fd]
                 node = h["node"]
             else:
-                node = self._open_node(file, flags, 0o644)
+                node = self._open_node(file, flags, 0o644, py=True)
         except OSError as e:
             self._logcall("open", file, errno.errorcode.get(e.errno, "?"))
             raise
